@@ -354,10 +354,17 @@ def run_group(hs, tier, logdir):
     for h in hs:
         for f in resdir.glob(f"*::{h.name}") if resdir.exists() else []:
             f.unlink()
-    biggest = max((h.mem or MEM_CAP_GB[tier]) for h in hs)
-    # caps are per process; most harnesses stay far below them, so the parallelism is planned on
-    # 60 % of the largest cap and a group-wide guard (below) handles the rare overshoot
-    jobs = max(1, min(NJOBS, len(hs), int(MEM_BUDGET_GB // (0.6 * biggest))))
+    # caps are per process; default-cap harnesses stay far below them (planned at 60 %), harnesses
+    # with an explicit mem= are the measured heavy ones (planned at 80 %): the largest N whose
+    # planned sizes fit the budget may run together; a group-wide guard (below) handles overshoot
+    planned = sorted(((0.8 * h.mem) if h.mem else (0.6 * MEM_CAP_GB[tier]) for h in hs), reverse=True)
+    jobs, acc = 0, 0.0
+    for sz in planned:
+        if acc + sz > MEM_BUDGET_GB or jobs >= NJOBS:
+            break
+        acc += sz
+        jobs += 1
+    jobs = max(1, jobs)
     cmd = kani_cmd(h0, TARGET, ["-j", str(jobs), "--output-format", "terse", "--output-into-files"],
                    names=[h.name for h in hs])
     lock = BuildLock()
@@ -618,7 +625,8 @@ def triage(prop, h, res, known):
 # one property
 # --------------------------------------------------------------------------------------
 def select(harnesses, prop, tier, seed):
-    mine = [h for h in harnesses if prop in h.props]
+    # tier=off: kept in the harness file for the record (measured as out of reach), never run
+    mine = [h for h in harnesses if prop in h.props and h.tier in ("quick", "thorough")]
     if tier == "quick":
         mine = [h for h in mine if h.tier == "quick"]
         groups = {}
